@@ -639,7 +639,10 @@ func (db *DB) Transaction(fc func(tx *DB) error, opts ...*sql.TxOptions) (err er
 		// nested transaction
 		if !db.DisableNestedTransaction {
 			spID := new(maphash.Hash).Sum64()
-			err = db.SavePoint(fmt.Sprintf("sp%d", spID)).Error
+			// a save point that cannot be set is the failure of this block, which then does not run: the error is
+			// returned and must not stay on the enclosing transaction's handle, whose later statements would all
+			// fail with it (a failed ROLLBACK TO below does stay there: the block's writes are still in place)
+			err = db.Session(&Session{}).SavePoint(fmt.Sprintf("sp%d", spID)).Error
 			if err != nil {
 				return
 			}
